@@ -211,6 +211,28 @@ def strategy_structure():
     return case()
 
 
+def strategy_structure_large():
+    """Sizes a typical model has (dims up to a few hundred, thresholds up to 128 and the default 1024); the structural oracle is cheap."""
+    from hypothesis import strategies as st
+
+    @st.composite
+    def case(draw: Any) -> dict:
+        mpd = draw(st.sampled_from([7, 32, 64, 100, 128, 256, 1024]))
+        order = draw(st.integers(1, 4))
+        shape = []
+        prod = 1
+        for _ in range(order):
+            d = draw(st.one_of(st.sampled_from([1, 2, 3, mpd - 1, mpd, mpd + 1, 2 * mpd, 2 * mpd + 1, 3 * mpd - 1]), st.integers(1, 300)))
+            d = max(1, min(d, 300))
+            while prod * d > 200000 and d > 1:
+                d = max(1, d // 2)
+            shape.append(d)
+            prod *= d
+        return {"shapes": [shape], "mpd": mpd, "merge": draw(st.booleans()), "mask": [True]}
+
+    return case()
+
+
 # --------------------------------------------------------------------------- metamorphic
 def strategy_meta():
     from hypothesis import strategies as st
@@ -336,5 +358,6 @@ _ = history
 STREAMS = {
     "structure_grid": Stream("structure_grid", oracle=oracle_structure, enumerate=enumerate_grid, exhaustive=True, shards_quick=8, shards_thorough=16),
     "structure": Stream("structure", oracle=oracle_structure, strategy=strategy_structure, quick=6000, thorough=150000, shards_quick=4, shards_thorough=16),
+    "structure_large": Stream("structure_large", oracle=oracle_structure, strategy=strategy_structure_large, quick=600, thorough=20000, shards_quick=4, shards_thorough=16),
     "metamorphic": Stream("metamorphic", oracle=oracle_meta, strategy=strategy_meta, quick=1200, thorough=30000, shards_quick=16, shards_thorough=16),
 }
